@@ -57,6 +57,7 @@ type Cfg struct {
 	PO          int    `json:"po_ms"`   // PongOnlyInterval
 	MPO         bool   `json:"mpo"`     // MissingPongOk
 	NoCloseFn   bool   `json:"noclosefn"`
+	LingerMs    int    `json:"linger_ms"` // a Source returns this long after it saw ctx.Done (promptly: a few ms)
 }
 
 func (c Cfg) proto() string {
@@ -94,6 +95,7 @@ type Step struct {
 	Flavor int    `json:"flavor,omitempty"` // which kind of bad start
 	Sync   bool   `json:"sync,omitempty"`   // settle after the step
 	Expect *Obs   `json:"expect,omitempty"` // replay: the observation WsImpl predicts once the connection is quiescent
+	Second *Step  `json:"second,omitempty"` // op "send2": a second frame in the SAME TCP write
 }
 
 type Scenario struct {
@@ -286,6 +288,9 @@ func (s *session) executableSchema() graphql.ExecutableSchema {
 				select {
 				case <-ctx.Done():
 					s.logEv(Event{E: "SCancel", I: inst}, nil)
+					if s.sc.Cfg.LingerMs > 0 { // winding down: still prompt, but not instantaneous
+						time.Sleep(ms(s.sc.Cfg.LingerMs))
+					}
 					s.logEv(Event{E: "SExit", I: inst, M: "cancel"}, nil)
 					close(src.exited)
 					return nil
@@ -632,6 +637,44 @@ func (s *session) send(st Step) {
 	}
 }
 
+// rawFrame: one masked client text frame (mask key 0 leaves the payload as it is)
+func rawFrame(payload []byte) []byte {
+	b := []byte{0x81}
+	n := len(payload)
+	switch {
+	case n < 126:
+		b = append(b, 0x80|byte(n))
+	case n < 65536:
+		b = append(b, 0x80|126, byte(n>>8), byte(n))
+	default:
+		panic("frame too long")
+	}
+	b = append(b, 0, 0, 0, 0)
+	return append(b, payload...)
+}
+
+// send2 writes two messages as two websocket frames in ONE write on the socket: the server's
+// reader finds the second frame in its buffer as soon as it has dispatched the first.
+func (s *session) send2(a, b Step) {
+	proto := s.sc.Cfg.proto()
+	for _, st := range []Step{a, b} {
+		ev := Event{E: "CSend", M: st.M, ID: st.ID, I: st.Inst, S: st.Kind}
+		if st.M != "start" {
+			ev.I, ev.S = "", ""
+		}
+		s.logEv(ev, nil)
+	}
+	_, da := wire(proto, a)
+	_, db := wire(proto, b)
+	s.wmu.Lock()
+	defer s.wmu.Unlock()
+	nc := s.conn.UnderlyingConn()
+	_ = nc.SetWriteDeadline(time.Now().Add(10 * time.Second))
+	if _, err := nc.Write(append(rawFrame(da), rawFrame(db)...)); err != nil {
+		s.note("client write failed: " + err.Error())
+	}
+}
+
 func (s *session) note(n string) {
 	s.mu.Lock()
 	s.notes = append(s.notes, n)
@@ -822,6 +865,8 @@ func runScenario(sc *Scenario) *Result {
 		switch st.Op {
 		case "send":
 			s.send(st)
+		case "send2":
+			s.send2(st, *st.Second)
 		case "src":
 			s.srcCmd(st.Inst, st.M, 2*s.unit)
 		case "cancel":
@@ -847,6 +892,9 @@ func runScenario(sc *Scenario) *Result {
 		if st.Op == "send" && st.M == "stop" && (st.Sync || st.Expect != nil) {
 			s.checkStop(st.ID, gen, confirm)
 		}
+		if st.Op == "send2" && st.Second.M == "stop" && (st.Sync || st.Expect != nil) {
+			s.checkStop(st.Second.ID, gen, confirm)
+		}
 	}
 	s.finish(gen, confirm, res)
 	s.mu.Lock()
@@ -858,36 +906,37 @@ func runScenario(sc *Scenario) *Result {
 	return res
 }
 
-// checkStop: StopCancels.  Every Source of the id that was running when the stop was
-// logged must see ctx.Done (or end by itself).  Absence is reported only after the
-// confirmation wait, and only while the connection is open.
+// checkStop: StopCancels.  Every operation of the id whose start was SENT before the stop (the reader
+// takes the frames in order and subscribe() registers the operation before it returns, so the stop
+// must reach it even when it arrives in the same TCP write) must have its context cancelled: its
+// Source sees ctx.Done or ends by itself.  Absence is reported only after the confirmation wait, and
+// only while the connection is open.  (The completion that must follow is checked by finish.)
 func (s *session) checkStop(id string, gen, confirm time.Duration) {
 	s.mu.Lock()
-	// position of the stop in the log
-	pos := -1
+	var obliged []string
+	stopSeen := false
 	for i := len(s.events) - 1; i >= 0; i-- {
-		if s.events[i].E == "CSend" && s.events[i].M == "stop" && s.events[i].ID == id {
-			pos = i
-			break
+		ev := s.events[i]
+		if !stopSeen {
+			if ev.E == "CSend" && ev.M == "stop" && ev.ID == id {
+				stopSeen = true
+			}
+			continue
 		}
-	}
-	var running []string
-	for _, i := range s.order {
-		st := s.inst[i]
-		if st.id == id && st.src == "run" && st.startedAtLog < pos {
-			running = append(running, i)
+		if ev.E == "CSend" && ev.M == "start" && ev.ID == id && ev.S == "ok" {
+			obliged = append(obliged, ev.I)
 		}
 	}
 	s.mu.Unlock()
-	if len(running) == 0 {
+	if len(obliged) == 0 {
 		return
 	}
 	still := func() []string {
 		s.mu.Lock()
 		defer s.mu.Unlock()
 		var out []string
-		for _, i := range running {
-			if s.inst[i].src == "run" {
+		for _, i := range obliged {
+			if s.inst[i].src != "exited" {
 				out = append(out, i)
 			}
 		}
@@ -921,7 +970,8 @@ func (s *session) finish(gen, confirm time.Duration, res *Result) {
 		for _, i := range s.order {
 			st := s.inst[i]
 			have[st.id] += st.cp
-			if st.src == "exited" && st.xk != "cancel" && st.er == 0 {
+			// (also an operation that was cancelled - stop - is completed towards the client)
+			if st.src == "exited" && st.er == 0 {
 				need[st.id] = append(need[st.id], i)
 			}
 		}
@@ -1071,9 +1121,13 @@ func (s *session) finish(gen, confirm time.Duration, res *Result) {
 // at once, then stop(id): the restarted operation must be cancelled.
 func (s *session) hammer(st Step, iters int) {
 	if iters <= 0 {
-		iters = 50
+		iters = 20
 	}
+	limit := time.Now().Add(ms(st.Ms)) // bounded by rounds AND by time
 	for n := 1; n <= iters; n++ {
+		if st.Ms > 0 && time.Now().After(limit) {
+			return
+		}
 		s.mu.Lock()
 		c := s.cend
 		s.mu.Unlock()
